@@ -4,6 +4,7 @@ import (
 	"fmt"
 	"math"
 	"math/bits"
+	"sort"
 	"strconv"
 	"strings"
 
@@ -13812,7 +13813,19 @@ func (l *Lowerer) registerUnusedLetBindings() {
 	if l.currentFunc == nil || l.currentFunc.NamedExpressions == nil {
 		return
 	}
-	for name, handle := range l.locals {
+	// Map order is random: visit the names in sorted order and never replace
+	// a name given at declaration time, so that two unused bindings of the
+	// same expression (`let p = &v; let q = &v;`) always lower the same way.
+	names := make([]string, 0, len(l.locals))
+	for name := range l.locals {
+		names = append(names, name)
+	}
+	sort.Strings(names)
+	for _, name := range names {
+		handle := l.locals[name]
+		if _, named := l.currentFunc.NamedExpressions[handle]; named {
+			continue
+		}
 		// Skip local const declarations — they are inlined, not named expressions.
 		// Matches Rust naga where local const is Declared::Const, not in named_expressions.
 		if l.localConsts[name] {
